@@ -1,9 +1,107 @@
 (* C13 — obligations.  Statements only, closed by the lemmas proved in Cliff/. *)
-From Coq Require Import List Bool ZArith.
-From VF Require Import Base.RingOps Base.Mat Cliff.Tableau Generated.TableauRules Cliff.TableauProofs.
+From Coq Require Import List Bool ZArith Arith Lia.
+From VF Require Import Base.RingOps Base.Mat Base.Tensor Base.K8 Gates.GateSpecs
+  Cliff.Tableau Cliff.TableauSem Cliff.TableauCircuit Generated.TableauRules
+  Cliff.TableauProofs Cliff.TableauConjProofs Cliff.TableauTrackProofs Cliff.TableauCircuitProofs.
 Import ListNotations.
 
 (* every regenerated rule table of CliffordTableau (apply_x/y/z/h/cz/cx, _swap, g, _rowsum) is the model's rule *)
 Theorem C13_tableau_tables_ok : tables_match_model.
 Proof. exact tableau_tables_ok. Qed.
 Print Assumptions C13_tableau_tables_ok.
+
+(* D1: each local rule is conjugation by the documented gate matrix: G P = P' G, G P G^-1 = P', G G^-1 = 1, for the
+   signed Pauli P on the gate's qubits and P' the rule's output; e = 2 * exponent, any global-shift phase g *)
+Theorem C13_rule_is_conjugation_X : forall K (O : Ops K), Laws O -> forall g gc, kmul O g gc = k1 O ->
+  forall e, e < 8 -> conj1_ok O (gate_x O e g) (gate_x_inv O e gc) (rule_x (eff e)).
+Proof. exact @rule_is_conjugation_X. Qed.
+Print Assumptions C13_rule_is_conjugation_X.
+
+Theorem C13_rule_is_conjugation_Y : forall K (O : Ops K), Laws O -> forall g gc, kmul O g gc = k1 O ->
+  forall e, e < 8 -> conj1_ok O (gate_y O e g) (gate_y_inv O e gc) (rule_y (eff e)).
+Proof. exact @rule_is_conjugation_Y. Qed.
+Print Assumptions C13_rule_is_conjugation_Y.
+
+Theorem C13_rule_is_conjugation_Z : forall K (O : Ops K), Laws O -> forall g gc, kmul O g gc = k1 O ->
+  forall e, e < 8 -> conj1_ok O (gate_z O e g) (gate_z_inv O e gc) (rule_z (eff e)).
+Proof. exact @rule_is_conjugation_Z. Qed.
+Print Assumptions C13_rule_is_conjugation_Z.
+
+Theorem C13_rule_is_conjugation_H : forall K (O : Ops K), Laws O -> forall g gc, kmul O g gc = k1 O ->
+  forall e, In e evens -> conj1_ok O (gate_h O e g) (gate_h_inv O e gc) (fun p => if odd_e e then rule_h p else p).
+Proof. exact @rule_is_conjugation_H. Qed.
+Print Assumptions C13_rule_is_conjugation_H.
+
+Theorem C13_rule_is_conjugation_CZ : forall K (O : Ops K), Laws O -> forall g gc, kmul O g gc = k1 O ->
+  forall e, In e evens -> conj2_ok O (gate_cz O e g) (gate_cz_inv O e gc) (fun p => if odd_e e then rule_cz p else p).
+Proof. exact @rule_is_conjugation_CZ. Qed.
+Print Assumptions C13_rule_is_conjugation_CZ.
+
+Theorem C13_rule_is_conjugation_CX : forall K (O : Ops K), Laws O -> forall g gc, kmul O g gc = k1 O ->
+  forall e, In e evens -> conj2_ok O (gate_cx O e g) (gate_cx_inv O e gc) (fun p => if odd_e e then rule_cx p else p).
+Proof. exact @rule_is_conjugation_CX. Qed.
+Print Assumptions C13_rule_is_conjugation_CX.
+
+Theorem C13_rule_is_conjugation_SWAP : forall K (O : Ops K), Laws O -> forall g gc, kmul O g gc = k1 O ->
+  forall e, In e evens -> conj2_ok O (gate_swap O e g) (gate_swap_inv O e gc) (rule_swap (odd_e e)).
+Proof. exact @rule_is_conjugation_SWAP. Qed.
+Print Assumptions C13_rule_is_conjugation_SWAP.
+
+(* D2: for any n and any circuit of gates satisfying the local lemma, U (P psi) = P' (U psi) where P' is the row the
+   tableau rules produce from P — i.e. every row is U (initial row) U^dagger — for every state psi and index i *)
+Theorem C13_tableau_tracks : forall K (O : Ops K), Laws O -> forall n gs, Forall (lg_ok O n) gs ->
+  forall row psi i, length (rbits row) = n -> wf n i ->
+  lg_run O gs (pauli_act O row psi) i = pauli_act O (rows_after gs row) (lg_run O gs psi) i.
+Proof. exact @tableau_tracks. Qed.
+Print Assumptions C13_tableau_tracks.
+
+Theorem C13_stabilizers_stabilize : forall K (O : Ops K), Laws O -> forall n bits gs,
+  length bits = n -> Forall (lg_ok O n) gs ->
+  forall row, In row (skipn n (tab_after gs (init_tableau n bits))) ->
+  forall i, wf n i -> pauli_act O row (lg_run O gs (ket O bits)) i = lg_run O gs (ket O bits) i.
+Proof. exact @stabilizers_stabilize. Qed.
+Print Assumptions C13_stabilizers_stabilize.
+
+(* the same for the model function the correspondence run compares with CliffordTableau after every gate:
+   apply_gates on the vocabulary X/Y/Z (half-integer powers), H/CZ/CX/SWAP (integer powers), global phase,
+   every exponent q/4 and every global-shift phase *)
+Theorem C13_sem_of_sound : forall K (O : Ops K), Laws O -> forall n g ph phc lg,
+  kmul O ph phc = k1 O -> axes_ok n g -> sem_of O g ph = Some lg ->
+  lg_ok O n lg /\ forall t, apply_gate g t = Some (lg_tab lg t).
+Proof. exact @sem_of_sound. Qed.
+Print Assumptions C13_sem_of_sound.
+
+Theorem C13_model_tableau_tracks : forall K (O : Ops K), Laws O -> forall n gs lgs,
+  Forall (fun gp => axes_ok n (fst gp) /\ exists phc, kmul O (snd gp) phc = k1 O) gs ->
+  sem_circuit O gs = Some lgs ->
+  forall t, apply_gates (map fst gs) t = Some (map (rows_after lgs) t) /\
+  forall row psi i, length (rbits row) = n -> wf n i ->
+    lg_run O lgs (pauli_act O row psi) i = pauli_act O (rows_after lgs row) (lg_run O lgs psi) i.
+Proof. exact @model_tableau_tracks. Qed.
+Print Assumptions C13_model_tableau_tracks.
+
+Theorem C13_model_stabilizers_stabilize : forall K (O : Ops K), Laws O -> forall n bits gs lgs t',
+  length bits = n ->
+  Forall (fun gp => axes_ok n (fst gp) /\ exists phc, kmul O (snd gp) phc = k1 O) gs ->
+  sem_circuit O gs = Some lgs ->
+  apply_gates (map fst gs) (init_tableau n bits) = Some t' ->
+  forall row, In row (skipn n t') -> forall i, wf n i ->
+    pauli_act O row (lg_run O lgs (ket O bits)) i = lg_run O lgs (ket O bits) i.
+Proof. exact @model_stabilizers_stabilize. Qed.
+Print Assumptions C13_model_stabilizers_stabilize.
+
+(* non-vacuity: the laws are inhabited (exact field Q(zeta_8)) and a Bell-pair circuit with an S gate meets every hypothesis *)
+Example C13_hypotheses_satisfiable :
+  Laws K8Ops /\
+  let gs := [(CH_ 4 0, k1 K8Ops); (CCX_ 4 0 1, k1 K8Ops); (CZ_ 2 1, ki K8Ops)] in
+  Forall (fun gp => axes_ok 2 (fst gp) /\ exists phc, kmul K8Ops (snd gp) phc = k1 K8Ops) gs /\
+  (exists lgs, sem_circuit K8Ops gs = Some lgs) /\
+  (exists t', apply_gates (map fst gs) (init_tableau 2 [false; true]) = Some t') /\ wf 2 [1; 0].
+Proof.
+  split; [exact K8Laws|]. simpl. repeat split.
+  - repeat constructor; simpl; try lia; try (exists (k1 K8Ops); vm_compute; reflexivity).
+    exists (kopp K8Ops (ki K8Ops)); vm_compute; reflexivity.
+  - eexists; reflexivity.
+  - eexists; reflexivity.
+  - repeat constructor.
+Qed.
